@@ -10,6 +10,17 @@ import (
 
 const c16Rule = "exhaustive over the universe of value shapes (every scalar kind, every typed slice incl. empty and typed nil, fixed-size arrays, []interface{} with nil / nested / bool elements, maps, pointers, channels, funcs, structs, complex, untyped nil) x {field with default container, pattern container, range container, number parser, unknown field} x {k-groups, compact, roaring} x index states {ordinary documents; no document; configured pattern/range/default fields whose holders are empty (empty value lists, unparsable values skipped)}; every hostile retrieval is followed by ordinary retrievals on the same index/scanner; plus every shape on indexes published three times by one builder (panic-freedom only). Non-trivial = the hostile value reaches a holder of a known field (the retrieval returns an error or a result computed from it); distinct = distinct input"
 
+// emptyListHolder: the stock default holder, except that "nothing matched" is an empty NON-nil cursor list
+type emptyListHolder struct{ *be.DefaultEntriesHolder }
+
+func (h *emptyListHolder) GetEntries(field *be.FieldDesc, assigns be.Values) (be.EntriesCursors, error) {
+	cs, err := h.DefaultEntriesHolder.GetEntries(field, assigns)
+	if err == nil && len(cs) == 0 {
+		return make(be.EntriesCursors, 0, 4), nil
+	}
+	return cs, err
+}
+
 func init() {
 	props["C16"] = &propDef{
 		header:    "From BE Require Import Corr.CheckC16.",
@@ -212,6 +223,39 @@ func init() {
 					restore()
 				}
 			}
+			// a custom holder registered through the public extension point (embeds the stock default holder) that answers
+			// "nothing matched" with an EMPTY, non-nil cursor list, as a pre-sizing implementation would
+			customCalls := 0
+			for _, kind := range []string{"kgroups", "compact"} {
+				be.RegisterEntriesHolder("verif_custom", func() be.EntriesHolder { return &emptyListHolder{be.NewDefaultEntriesHolder()} })
+				c := eCase{Kind: kind, Policy: "error"}
+				b := newBuilder(&c)
+				safeCall(func() { b.ConfigField(fieldName(6), be.FieldOption{Container: "verif_custom"}) })
+				for i, d := range []eDoc{
+					{ID: 1, Cons: []eConj{{{F: 6, Inc: true, V: tvStr("gold")}, {F: 0, Inc: true, V: tvSlice("[]int", tvInt("int", 1))}}}},
+					{ID: 2, Cons: []eConj{{{F: 6, Inc: false, V: tvStr("gold")}}, {{F: 0, Inc: true, V: tvSlice("[]int", tvInt("int", 2))}}}},
+					{ID: 3, Cons: []eConj{{{F: 6, Inc: true, V: tvSlice("[]string", tvStr("silver"), tvStr("gold"))}}}},
+				} {
+					_ = i
+					safeCall(func() { b.AddDocument(d.build()) })
+				}
+				var index be.BEIndex
+				if safeCall(func() { index = b.BuildIndex() }) {
+					continue
+				}
+				vals := []interface{}{"gold", "bronze", "", []string{}, []string{"none"}, []interface{}{}, nil, 7}
+				for _, v := range allShapes() {
+					vals = append(vals, v.Value())
+				}
+				for _, v := range vals {
+					for _, q := range []be.Assignments{{fieldName(6): v}, {fieldName(6): v, fieldName(0): 1}, {fieldName(6): v, fieldName(0): 2}} {
+						customCalls++
+						if safeCall(func() { index.Retrieve(q) }) && len(viol) < 8 {
+							viol = append(viol, fmt.Sprintf("Retrieve panicked on a %s index with a custom holder that answers with an empty non-nil cursor list: %v", kind, q))
+						}
+					}
+				}
+			}
 			// large results: a retrieval returning more than 4096 documents (the size at which bitmaps change their layout
 			// and pools their policy), then retrievals matching nothing, a few and everything again -- through Retrieve (pooled
 			// collector) and through one caller-owned collector that is Reset between calls.  Panic-freedom and result sizes.
@@ -260,7 +304,7 @@ func init() {
 					}
 				}
 			}
-			return map[string]interface{}{"republished_index_retrievals": calls, "geohash_field_retrievals": geoCalls, "large_result_retrievals": bigCalls}, viol
+			return map[string]interface{}{"republished_index_retrievals": calls, "geohash_field_retrievals": geoCalls, "large_result_retrievals": bigCalls, "custom_holder_retrievals": customCalls}, viol
 		},
 		exec: func(raw json.RawMessage) (execResult, error) {
 			var probe struct {
